@@ -476,7 +476,23 @@ def gen_sig(rng, first, pool, avail, max_extra=3, allow_posonly=False):
     return {'pos': pos, 'posonly': posonly, 'kwonly': kwonly, 'defaulted': defaulted}
 
 
-def gen_config(rng, defect=None, posonly=False, embed=None):
+def gen_config(rng, defect=None, posonly=False, embed=None, valid_base=None):
+    """valid_base: optional predicate; when a defect is to be injected, the configuration it is injected into is
+    re-drawn (up to 40 times) until the predicate accepts it, so that the defect is the ONLY reason to reject it"""
+    if defect and valid_base is not None:
+        for _ in range(40):
+            base = _gen_config(rng, None, posonly, embed)
+            if valid_base(base):
+                apply_defect(rng, base, defect)
+                d = base.get('decoy')
+                if d and (d in base['url'] or d in (base.get('outer') or {}).get('prefix_url', []) or base['route_resources'].count(d) != 1
+                          or d in BUILTINS4 + ['context', 'next']):
+                    del base['decoy']
+                return base
+    return _gen_config(rng, defect, posonly, embed)
+
+
+def _gen_config(rng, defect=None, posonly=False, embed=None):
     pool = ALPHA + ['request', '_route', '_application', '_dispatch_state', 'context', 'e', 'f']
     url = rng.sample(ALPHA, rng.choice([0, 0, 1, 1, 2]))
     rest = [x for x in ALPHA + ['e', 'f'] if x not in url]
